@@ -21,11 +21,12 @@ fn run_repl() {
         io::stdout().flush().unwrap();
         io::stdin().read_line(&mut buffer).unwrap();
 
-        // TODO: Error handling here
-        let ast = parse(&buffer).unwrap();
-        let code = compiler.compile_ast(&ast).unwrap();
+        // A line that does not parse or compile is reported like a line that fails while it runs
+        let result = parse(&buffer)
+            .and_then(|ast| compiler.compile_ast(&ast))
+            .and_then(|code| vm.run(code));
 
-        match vm.run(code) {
+        match result {
             Ok(obj) => {
                 if obj != Object::null() {
                     println!("{obj}")
